@@ -187,6 +187,31 @@ def run(prog, rep):
             src = [n for n in walk_no_nested(fn) if isinstance(n, ast.Assign) and isinstance(n.value, ast.Call) and call_name(n.value) == 'get_graph_id']
             if not src or ast.unparse(src[0].targets[0]) != ast.unparse(ins_id):
                 rep.violation('R3', loc(imod, fn), fq, 'graph id not taken from get_graph_id', 'a direct import must use the GraphID carried by the text')
+    # text handed over through a temporary file: written and flushed before it is read, read while the file still exists
+    for name in ('import_graph_from_string', 'import_graph_from_string_direct'):
+        fn = nxi.methods[name]
+        fq = f'NetworkXGraphImporter.{name}'
+        withs = [w for w in walk_no_nested(fn) if isinstance(w, ast.With) and 'NamedTemporaryFile' in ast.unparse(w.items[0].context_expr)]
+        if len(withs) != 1:
+            raise AnalysisError(f'{fq}: temporary file block not found')
+        w = withs[0]
+        fvar = ast.unparse(w.items[0].optional_vars)
+        wr = [c for c in ast.walk(w) if isinstance(c, ast.Call) and call_name(c) == 'write' and ast.unparse(c.func.value) == fvar]
+        fl = [c for c in ast.walk(w) if isinstance(c, ast.Call) and call_name(c) in ('flush', 'close') and ast.unparse(c.func.value) == fvar]
+        rd = [c for c in walk_no_nested(fn) if isinstance(c, ast.Call) and call_name(c) in ('_read_from_file', 'get_graph_id')]
+        rep.instance('R3', f'{fq}: write@{wr[0].lineno if wr else None} flush@{fl[0].lineno if fl else None} reads@{[c.lineno for c in rd]}')
+        inside = all(any(x is c for x in ast.walk(w)) for c in rd)
+        ok = bool(wr) and bool(fl) and bool(rd) and wr[0].lineno < fl[0].lineno < min(c.lineno for c in rd) and inside \
+            and ast.unparse(wr[0].args[0]) == 'graph_string'
+        if not ok:
+            rep.violation('R3', loc(imod, w), fq, 'temporary file not written+flushed before, or not alive while, it is read',
+                          'the serialized text reaches the reader through a temporary file: it must be written and flushed before '
+                          'the reader opens it by name, and the reader must run inside the with block (the file is deleted on exit); '
+                          'otherwise the import sees an empty or missing file')
+        for c in rd:
+            a0 = c.args[0] if c.args else kwarg(c, 'graph_file')
+            if a0 is None or ast.unparse(a0) != f'{fvar}.name':
+                rep.violation('R3', loc(imod, c), fq, norm(c, 90), 'the reader must be given the name of the temporary file that holds the text')
     abci = prog.cls(ABCI)
     ff = abci.methods.get('import_graph_from_file')
     rep.instance('R3', f'ABCGraphImporter.import_graph_from_file delegates to import_graph_from_string')
@@ -320,6 +345,8 @@ MUTANTS = [
     {'name': 'direct-import-uses-add_graph', 'file': NX, 'rule': 'R3',
      'find': '            if graph:\n                self.storage.add_graph_direct(graph_id=graph_id, graph=graph)\n            else:\n                raise PropertyGraphImportException(graph_id=graph_id,\n                                                   msg=f\'Unable to import graph from string\')\n\n        return self.graph_class(graph_id=graph_id, importer=self, logger=self.log) if graph_id is not None else None',
      'replace': '            if graph:\n                self.storage.add_graph(graph_id=graph_id, graph=graph)\n            else:\n                raise PropertyGraphImportException(graph_id=graph_id,\n                                                   msg=f\'Unable to import graph from string\')\n\n        return self.graph_class(graph_id=graph_id, importer=self, logger=self.log) if graph_id is not None else None'},
+    {'name': 'tempfile-flush-dropped', 'file': NX, 'rule': 'R3',
+     'find': "            f1.write(graph_string)\n            f1.flush()\n            graph = self._read_from_file(f1.name)", 'replace': "            f1.write(graph_string)\n            graph = self._read_from_file(f1.name)"},
     {'name': 'graphid-stamp-dropped', 'file': NX, 'rule': 'R4',
      'find': '                    temp_graph.nodes[n][ABCPropertyGraph.GRAPH_ID] = graph_id\n                self.start_id', 'replace': '                self.start_id'},
     {'name': 'extract-loses-node-data', 'file': NX, 'rule': 'R4',
